@@ -19,6 +19,7 @@ from __future__ import annotations
 
 import _thread
 import asyncio
+import concurrent.futures
 import asyncio.base_events as _be
 import asyncio.events as _ev
 import json
@@ -289,9 +290,9 @@ class CoopFuture:
         ds.switch_point(True)
         if not self._done:
             deadline = None if timeout is None else ds.clock + timeout
-            ok = ds.block(lambda: self._done, deadline, what="future")
+            ok = ds.block(lambda: self._done, deadline, what="future")       # deadline on the CONTROLLED clock
             if not ok:
-                raise TimeoutError()
+                raise concurrent.futures.TimeoutError()
         return self._result
 
 
@@ -389,12 +390,13 @@ DESIGN_INVS = ["TypeOK", "D_OnLoopThread", "D_NotEarly", "D_NoStart", "D_NoLost"
                "D_CallerInsideAnotherLoop"]
 TRACE_CONSTS = dict(Items={1, 2, 3}, Foreign={"F", "G"})
 UNIT = 1000          # trace times are in 1/1000 of a scenario tick (the monitor is unit-agnostic)
-VARIANTS_ALL = ("own", "caller", "early", "lose", "nowake", "inline")
+VARIANTS_ALL = ("own", "caller", "early", "lose", "nowake", "inline", "impatient")
 
 
 def make_run_one(sc: Dict[str, Any], form: str = "rel", wide: bool = False):
     """sc = {"scn": [item...], "f": {foreign thread: [op...]}, "l": [op...]} as exported by AsyncIOSched.tla (ExportScn).
-    form: how a positive delay is passed - "rel" float seconds, "td" timedelta, "abs" schedule_absolute(now + d)."""
+    form: how a positive delay is passed - "rel" float seconds, "td" timedelta, "abs" schedule_absolute(now + d);
+    "rel0" = like "rel", but an immediate item goes through schedule_relative(0.0)."""
     items = sc["scn"]
 
     def run_one(choose):
@@ -432,7 +434,9 @@ def make_run_one(sc: Dict[str, Any], form: str = "rel", wide: bool = False):
                     item = items[i - 1]
                     s, d = scheds[item["k"]], item["d"]
                     log("sc", i=i, k=item["k"], d=d * UNIT)
-                    if d == 0:
+                    if d == 0 and form == "rel0":
+                        r = s.schedule_relative(0.0, action_for(i))      # due now: delegates to schedule()
+                    elif d == 0:
                         r = s.schedule(action_for(i))
                     elif form == "rel":
                         r = s.schedule_relative(float(d), action_for(i))
@@ -639,17 +643,18 @@ def jvm_options(tier: str) -> None:
                                           else "-XX:ParallelGCThreads=4")
 
 
-def _cfg(n: int, family: str, variants=("own",), foreign=("F",), ownsets="NoOwn", **kw) -> str:
-    consts = dict(Items=set(range(1, n + 1)), Foreign=set(foreign), Variants=set(variants), Family="<-" + family, OwnSets="<-" + ownsets)
+def _cfg(n: int, family: str, variants=("own",), foreign=("F",), ownsets="NoOwn", busysets="NoBusy", **kw) -> str:
+    consts = dict(Items=set(range(1, n + 1)), Foreign=set(foreign), Variants=set(variants), Family="<-" + family, OwnSets="<-" + ownsets,
+                  BusySets="<-" + busysets)
     return tlc.cfg_text(consts, **kw).replace("= <-", "<- ")
 
 
-def export_and_controls(n: int, family: str, foreign=("F",), ownsets="OwnExportC", timeout: int = 900) -> Tuple[List[Dict[str, Any]], Any]:
+def export_and_controls(n: int, family: str, foreign=("F",), ownsets="OwnExportC", busysets="BusyC", timeout: int = 900) -> Tuple[List[Dict[str, Any]], Any]:
     """One TLC run: (i) the scenario family the replayer performs, as TLC enumerates it in Init for variant "own" (one
     exported line per initial state, no steps: action constraint NoOwnSteps); (ii) the negative controls: every fault
     variant is explored until the invariant it was built to break fails (constraint ControlPrune sets a register), the
     postcondition ControlsRefuted requires all of them.  One worker (registers are per worker; export lines)."""
-    cfg = _cfg(n, family, variants=VARIANTS_ALL, foreign=foreign, ownsets=ownsets, invariants=DESIGN_INVS + ["ExportOwn"],
+    cfg = _cfg(n, family, variants=VARIANTS_ALL, foreign=foreign, ownsets=ownsets, busysets=busysets, invariants=DESIGN_INVS + ["ExportOwn"],
                constraints=["ControlPrune"], action_constraints=["NoOwnSteps"], postcondition="ControlsRefuted", deadlock=False)
     res = tlc.run("AsyncIOSchedMC", cfg, workers=1, timeout=timeout, allow_violation=True)
     if not res.ok:
@@ -674,11 +679,12 @@ def export_scenarios(n: int, family: str, foreign=("F",), ownsets="NoOwn", timeo
 
 
 def design_run(n: int, family: str, variants=("own",), foreign=("F",), workers: int = 2, coverage: bool = False, timeout: int = 1800,
-               simulate: Optional[str] = None, depth: Optional[int] = None, seed: Optional[int] = None, ownsets: str = "NoOwn"):
+               simulate: Optional[str] = None, depth: Optional[int] = None, seed: Optional[int] = None, ownsets: str = "NoOwn",
+               busysets: str = "NoBusy"):
     """All interleavings of the mechanism for every scenario of the family.  With fault variants: one worker (TLC registers
     are per worker), constraint ControlPrune, postcondition ControlsRefuted."""
     controls = [v for v in variants if v != "own"]
-    cfg = _cfg(n, family, variants=variants, foreign=foreign, ownsets=ownsets, invariants=DESIGN_INVS, deadlock=simulate is None,
+    cfg = _cfg(n, family, variants=variants, foreign=foreign, ownsets=ownsets, busysets=busysets, invariants=DESIGN_INVS, deadlock=simulate is None,
                constraints=["ControlPrune"] if controls else [], postcondition="ControlsRefuted" if controls else None)
     res = tlc.run("AsyncIOSchedMC", cfg, workers=1 if controls else workers, timeout=timeout, coverage=coverage, allow_violation=True,
                   simulate=simulate, depth=depth, seed=seed)
@@ -778,7 +784,8 @@ def conc_check(ck, jobs: List[Tuple], pool, label: str, mech_sample: Optional[in
         rest = [i for i in plain if i not in set(hot)]
         rnd.shuffle(rest)
         plain = (hot[: (mech_sample * 2) // 3] + rest)[:mech_sample]
-    entries = [{"scn": results[meta[i][0]]["scenario"]["scn"], "own": results[meta[i][0]]["scenario"].get("own", []), "ev": batch[i]} for i in plain]
+    entries = [{"scn": results[meta[i][0]]["scenario"]["scn"], "own": results[meta[i][0]]["scenario"].get("own", []),
+                "busy": results[meta[i][0]]["scenario"].get("busy", 0), "ev": batch[i]} for i in plain]
     with ThreadPoolExecutor(max_workers=1) as tp:
         f_mech = tp.submit(mech_validate, entries) if entries else None
         rejected, only_late, ress = validate(batch)
